@@ -368,14 +368,15 @@ class Runner:
         obs = set(fs) & set(fam.names)
         env.count("fields_set_checks")
         # an InitVar is a constructor argument, not a field: its name is never "set" by construction / deserialization
-        # (after apischema.dataclasses.replace or an explicit set_fields naming it, membership is unspecified)
+        # nor by apischema.dataclasses.replace (which passes the InitVar default again to the constructor: F115);
+        # only after an explicit set_fields / assignment naming it is its membership unspecified
         others = sorted(set(fs) - set(fam.names) - set(fam.initvars))
         env.count("non_field_name_checks")
         if others:  # e.g. an attribute set by the machinery around the class (typing's __orig_class__)
             self.violation("fields_set-contains-non-field", ops, step, {"names": others[:3]}, observed=sorted(fs))
         if fam.initvars:
             env.count("initvar_not_a_field_checks")
-            named = any(op[0] == "replace" or (op[0] in ("set", "assign") and set(fam.initvars) & set(op[1] if isinstance(op[1], (tuple, list, set)) else (op[1],))) for op in ops[: step + 1])
+            named = any((op[0] in ("set", "assign") and set(fam.initvars) & set(op[1] if isinstance(op[1], (tuple, list, set)) else (op[1],))) for op in ops[: step + 1])
             ivs = sorted(set(fam.initvars) & set(fs))
             if ivs and not named:
                 self.violation("fields_set-contains-initvar", ops, step, {"created_by": ops[0][0]}, observed=sorted(fs), initvars=ivs)
